@@ -220,4 +220,53 @@ theorem mdpLP_same_optimum (S A : List Nat) (ddn : List DNode) (γ : Rat) (h : L
   exact hmin _ ((mdpLP_same_feasible S A ddn γ h g R wf ((List.range h.length).map u) hbp).mp
     ⟨u, fun k hk => (getD_range_map u _ k hk).symm, hu⟩)
 
+/-! ## the driver's FactoredLP verdict, as a statement about max-norm errors -/
+
+theorem absQ_le_iff (e φ : Rat) : absQ e ≤ φ ↔ -φ ≤ e ∧ e ≤ φ := by
+  unfold absQ
+  split
+  · constructor
+    · intro h; constructor <;> linarith
+    · rintro ⟨h1, _⟩; linarith
+  · constructor
+    · intro h; constructor <;> linarith
+    · rintro ⟨_, h2⟩; exact h2
+
+/-- **what `ok` means for a FactoredLP case**: if the driver's certificate `y` passes `dualOk` for the flat LP and the
+    returned weights' max-norm error is within `ε` of the certified bound, then the returned weights MINIMISE the max-norm
+    error between the weighted basis and the target up to `ε`: no weight vector `w'` does better by more than `ε` -/
+theorem flp_verdict_sound (S : List Nat) (C b : List Basis) (addConst : Bool) (w y : List Rat) (ε : Rat)
+    (hd : dualOk (flpNVars C addConst) (flpFlatRows S C b addConst) (flpObj C addConst) y = true)
+    (hw : flpMaxErr S C b addConst w ≤ dualVal (flpFlatRows S C b addConst) y + ε) :
+    ∀ w' : List Rat, w'.length = flpPhi C addConst → flpMaxErr S C b addConst w ≤ flpMaxErr S C b addConst w' + ε := by
+  intro w' hlen
+  -- (w', maxerr w') is feasible for the flat LP
+  have hfeas : ∀ r ∈ flpFlatRows S C b addConst, r.sat (flpNVars C addConst) (w' ++ [flpMaxErr S C b addConst w']) := by
+    rw [flpFlatRows_sat_iff]
+    intro s hs
+    have hphi : (w' ++ [flpMaxErr S C b addConst w']).getD (flpPhi C addConst) 0 = flpMaxErr S C b addConst w' := by
+      rw [← hlen]; exact getD_append_len w' _
+    have herr : flpErr S C b addConst (w' ++ [flpMaxErr S C b addConst w']) s = flpErr S C b addConst w' s := by
+      have hk : ∀ k, k < w'.length → (w' ++ [flpMaxErr S C b addConst w']).getD k 0 = w'.getD k 0 :=
+        fun k hk => getD_append_lt w' _ k hk
+      have hCl : C.length ≤ w'.length := by rw [hlen]; simp only [flpPhi]; omega
+      simp only [flpErr, wAt]
+      congr 1
+      congr 1
+      · apply sumTo_congr
+        intro i hi; rw [hk i (by omega)]
+      · cases addConst with
+        | false => rfl
+        | true =>
+          simp only [if_true]
+          exact hk _ (by rw [hlen]; simp [flpPhi])
+    rw [hphi, herr, ← absQ_le_iff]
+    exact maxL_ge _ _ (List.mem_map.mpr ⟨s, (mem_allActs S s).mpr hs, rfl⟩)
+  have h1 := weak_duality_sound _ _ _ y _ hd hfeas
+  rw [flpObj_dot] at h1
+  have hphi : (w' ++ [flpMaxErr S C b addConst w']).getD (flpPhi C addConst) 0 = flpMaxErr S C b addConst w' := by
+    rw [← hlen]; exact getD_append_len w' _
+  rw [hphi] at h1
+  linarith
+
 end AITB.FLP
